@@ -56,7 +56,7 @@ for f in $(git diff --name-only --diff-filter=U | grep "^lean/HickoryVerif/Gener
 if git diff --name-only --diff-filter=U | grep -q '^harness/Cargo.lock$'; then
   git checkout --ours harness/Cargo.lock; git add harness/Cargo.lock
 fi
-for f in $(git diff --name-only --diff-filter=U | grep "^evidence/" || true); do git checkout --theirs "$f"; git add "$f"; done
+for f in $(git diff --name-only --diff-filter=U | grep "^evidence/\|^checks/C" || true); do git checkout --theirs "$f"; git add "$f"; done
 git checkout --ours MANIFEST.json 2>/dev/null || true
 python3 tools/extract_consts.py >/dev/null 2>&1 || true
 git add lean/HickoryVerif/Generated 2>/dev/null || true
